@@ -191,7 +191,7 @@ CHECKS["C11"] = dict(
 CHECKS["C14"] = dict(
     level="exploration",
     rule="(Deadlines) rapid-generated histories of write(DNS|non-DNS, the outbound send succeeding or failing) / reply(from port 53|other) / pause on one NAT entry inside the in-package executor (package service) whose fake outbound socket records every "
-         "SetReadDeadline; timeouts from {1 ms .. 5 min} incl. 16999/17000/17001 ms. After every write the deadline is >= start-of-write + its timeout (17 s for port 53) and never moves earlier; the only permitted "
+         "SetReadDeadline; timeouts from {2 s .. 5 min} incl. 16999/17000/17001 ms. After every write the deadline is >= start-of-write + its timeout (17 s for port 53) and never moves earlier; the only permitted "
          "shortening is the fast close (exactly one write so far, it was DNS, first response from a port-53 sender), which must then happen; on expiry: removed once, socket closed, table empty. "
          "(Lifecycle, Long) batches of 4..24 (thorough 64) concurrent clients against the real PacketHandler on real sockets with NAT timeouts of 300-600 ms and scripts plain / dns-single / dns-multi / mixed / "
          "dns-then-plain / plain-reply-from-53 / recreate / unsendable (first datagram cannot be sent, client stays idle): alive before last-send + timeout (client-side instant, sound), removed and outbound port released within +2 s, single-DNS associations close right after the "
